@@ -18,7 +18,7 @@ FILES = ["src/stereomolgraph/rdmol2graph.py", "src/stereomolgraph/graphs/smg.py"
 FUNCTIONS = ["RDMol2StereoMolGraph.smg_from_rdmol", "RDMol2StereoMolGraph.__call__", "mol_graph_from_rdmol", "StereoMolGraph.from_rdmol", "MolGraph.from_rdmol",
              "_tbp_atom_order_permutation_dict", "_oct_atom_order_permutation_dict", "_rd_tetrahedral"]
 BOUNDS = {"quick": "one stereogenic unit: tetrahedral centre (4 ligands; 3 ligands + lone pair), square planar, trigonal bipyramidal, octahedral centre with pairwise distinct ligands, one "
-                   "double bond XYC=CZW; representation A: all neighbour orders for Tet/SP, strided for TBP/Oct, all labels; B: all labels under A's order, 12 other orders, "
+                   "double bond XYC=CZW, one imine X-N=CYZ (lone pair; every choice of the atom with RDKit index 0); representation A: all neighbour orders for Tet/SP, strided for TBP/Oct, all labels; B: all labels under A's order, 12 other orders, "
                    "3 RenumberAtoms permutations, 4 random SMILES spellings (seeded); option flags use_atom_map_number / stereo_complete / lone_pair_stereo",
           "thorough": "all neighbour orders for TBP, 144 for Oct; 48 other orders"}
 OUTSIDE = ("molecules with several interacting stereo units, ring-cis inference, resonance merging on conjugated systems (RDKit C++ behaviour on whole molecules); "
@@ -191,6 +191,58 @@ def dbond(oi, swap, ez, sa0, sa1):
     return None
 
 
+def imine(first, ez, sa, oi):
+    """X-N=C(Y)(Z): double bond at a two-coordinate N (lone pair).  `first`: which atom gets RDKit index 0 (0: the N substituent, 1: N, 2: C, 3: Y)"""
+    from rdkit import Chem
+    names = ["X", "N", "C", "Y", "Z"]
+    els = {"X": "O", "N": "N", "C": "C", "Y": "H", "Z": "F"}
+    order_atoms = names[first:] + names[:first]
+
+    def mk(perm_bonds, z, which, atoms_order):
+        m = Chem.RWMol()
+        idx = {}
+        for nm in atoms_order:
+            a = Chem.Atom(els[nm])
+            a.SetNoImplicit(True)
+            idx[nm] = m.AddAtom(a)
+        bonds = [("X", "N", 1), ("N", "C", 2), ("C", "Y", 1), ("C", "Z", 1)]
+        for k in perm_bonds:
+            a, b, o = bonds[k]
+            m.AddBond(idx[a], idx[b], Chem.BondType.DOUBLE if o == 2 else Chem.BondType.SINGLE)
+        bd = m.GetBondBetweenAtoms(idx["N"], idx["C"])
+        other = idx[("Y", "Z")[which]]
+        if bd.GetBeginAtomIdx() == idx["N"]:
+            bd.SetStereoAtoms(idx["X"], other)
+        else:
+            bd.SetStereoAtoms(other, idx["X"])
+        bd.SetStereo((Chem.BondStereo.STEREOZ, Chem.BondStereo.STEREOE)[z])
+        return m, idx
+    perms = list(itertools.permutations(range(4)))
+    ma, ia = mk(perms[oi], ez, sa, order_atoms)
+    ca = rdk.canon(ma)
+    ga = _import(ma)
+    key = frozenset((ia["N"], ia["C"]))
+    if key not in ga.bond_stereo:
+        return f"imine: no PlanarBond imported for N=C (atom order {order_atoms}): {gl.snap(ga)['bstereo']}"
+    if None not in ga.bond_stereo[key].atoms:
+        return "imine: descriptor lacks the lone-pair placeholder"
+    for fb in range(4):
+        ob = names[fb:] + names[:fb]
+        for pb in perms[::5]:
+            for z in (0, 1):
+                for w in (0, 1):
+                    mb, ib = mk(pb, z, w, ob)
+                    same = rdk.canon(mb) == ca
+                    gb = _import(mb)
+                    if (ga == gb) != same:
+                        return (f"imine: (atoms {order_atoms}, {'ZE'[ez]}, ref {sa}) vs (atoms {ob}, {'ZE'[z]}, ref {w}): RDKit same={same}, graphs equal={ga == gb}")
+                    if same and hash(ga) != hash(gb):
+                        return "imine: equal imports, different hashes"
+    if key in _import(ma, lone_pair_stereo=False).bond_stereo:
+        return "imine: lone_pair_stereo=False still imports the descriptor with a placeholder"
+    return None
+
+
 def plan(tier, seed):
     units = []
     for ki, kn in enumerate(KINDS):
@@ -203,6 +255,8 @@ def plan(tier, seed):
             pre.append("oi % 120 == 7 and lab % 3 == 0" if tier == "quick" else "oi % 20 == 7")
         units.append(Sel(name=f"centre_{kn}", func="vp.props.C12:centre", params=params, pre=pre, shard_by=[], timeout=1500, nontrivial="oi > 0", min_shard=8))
     units.append(Sel(name="lonepair", func="vp.props.C12:lonepair", params={"oi": (0, 6), "lab": (0, 2)}, pre=[], shard_by=[], timeout=900))
+    units.append(Sel(name="imine", func="vp.props.C12:imine", params={"first": (0, 4), "ez": (0, 2), "sa": (0, 2), "oi": (0, 24)},
+                     pre=["oi % 6 == 0"] if tier == "quick" else [], shard_by=[], timeout=1500, min_shard=8))
     units.append(Sel(name="double_bond", func="vp.props.C12:dbond", params={"oi": (0, 12 if tier == "quick" else 60), "swap": "bool", "ez": (0, 2), "sa0": (0, 2), "sa1": (0, 2)},
                      pre=[], shard_by=[], timeout=1500, min_shard=8))
     return units
